@@ -69,9 +69,23 @@ theorem constLoop_spec (sh : Shp) (src : Cls) (vals : List α) (l : List Cls) (d
       obtain ⟨hm, hbp, hh⟩ := ih h
       exact ⟨List.mem_cons_of_mem _ hm, hbp, hh⟩
 
+theorem isRepeatingP_self (l : List α) : isRepeatingP l.length l = true := by
+  unfold isRepeatingP
+  rw [List.all_eq_true]
+  intro b hb
+  have hb' := List.mem_range.mp hb
+  by_cases h0 : l.length = 0
+  · simp [h0] at hb'
+  · have : l.length / l.length = 1 := Nat.div_self (by omega)
+    rw [this] at hb'
+    have : b = 0 := by omega
+    subst this
+    simp
+
 theorem repeatLoop_spec (sh : Shp) (vals : List α) (l : List Cls) (d : Cls)
     (out : List α) (h : repeatLoop sh vals l = .ok (some (d, out))) :
-    d ∈ l ∧ basePresent sh d = true ∧ 1 < mult sh d ∧ mult sh d < vals.length ∧
+    d ∈ l ∧ basePresent sh d = true ∧
+      (mult sh d = vals.length ∨ (1 < mult sh d ∧ mult sh d < vals.length)) ∧
       vals.length % mult sh d = 0 ∧ isRepeatingP (mult sh d) vals = true ∧
       out = vals.take (mult sh d) := by
   induction l with
@@ -80,22 +94,30 @@ theorem repeatLoop_spec (sh : Shp) (vals : List α) (l : List Cls) (d : Cls)
     unfold repeatLoop at h
     by_cases hb : basePresent sh x = true
     · simp only [hb, if_true] at h
-      unfold pyIsRepeating at h
-      by_cases hg : mult sh x ≤ 1 ∨ mult sh x ≥ vals.length
-      · simp [hg] at h
-      · simp only [hg, if_false] at h
-        by_cases hdiv : vals.length % mult sh x ≠ 0
-        · simp [hdiv] at h
-        · simp only [hdiv, if_false] at h
-          cases hc : isRepeatingP (mult sh x) vals with
-          | true =>
-            simp [hc] at h
-            obtain ⟨rfl, rfl⟩ := h
-            refine ⟨List.mem_cons_self, hb, by omega, by omega, by simpa using hdiv, hc, rfl⟩
-          | false =>
-            simp only [hc] at h
-            obtain ⟨hm, r⟩ := ih h
-            exact ⟨List.mem_cons_of_mem _ hm, r⟩
+      unfold repeatHit at h
+      by_cases hdeg : mult sh x = vals.length
+      · simp only [hdeg, if_true] at h
+        simp at h
+        obtain ⟨rfl, rfl⟩ := h
+        refine ⟨List.mem_cons_self, hb, Or.inl hdeg, by rw [hdeg]; exact Nat.mod_self _, ?_, by rw [hdeg]; simp⟩
+        rw [hdeg]; exact isRepeatingP_self vals
+      · simp only [hdeg, if_false] at h
+        unfold pyIsRepeating at h
+        by_cases hg : mult sh x ≤ 1 ∨ mult sh x ≥ vals.length
+        · simp [hg] at h
+        · simp only [hg, if_false] at h
+          by_cases hdiv : vals.length % mult sh x ≠ 0
+          · simp [hdiv] at h
+          · simp only [hdiv, if_false] at h
+            cases hc : isRepeatingP (mult sh x) vals with
+            | true =>
+              simp [hc] at h
+              obtain ⟨rfl, rfl⟩ := h
+              refine ⟨List.mem_cons_self, hb, Or.inr ⟨by omega, by omega⟩, by simpa using hdiv, hc, rfl⟩
+            | false =>
+              simp only [hc] at h
+              obtain ⟨hm, r⟩ := ih h
+              exact ⟨List.mem_cons_of_mem _ hm, r⟩
     · simp only [hb] at h
       obtain ⟨hm, r⟩ := ih h
       exact ⟨List.mem_cons_of_mem _ hm, r⟩
@@ -308,13 +330,14 @@ theorem simplify_lookup (null : α) (sh : Shp) (wf : WF sh) (c : Cls) (vals : Li
             obtain ⟨d', out'⟩ := pr
             simp [hrl] at h
             obtain ⟨rfl, rfl⟩ := h
-            obtain ⟨hmem, _, h1, _, hdiv, hrep, ho⟩ := repeatLoop_spec sh vals _ _ _ hrl
+            obtain ⟨hmem, _, hcase, hdiv, hrep, ho⟩ := repeatLoop_spec sh vals _ _ _ hrl
             subst ho
             have hi : proj sh s t v c < vals.length := by
               rw [hlen]; cases c <;> simp [proj, mult, hsl] <;>
                 first | omega | (rw [Nat.mul_assoc]; exact lt3) | exact lt2 | exact lt2'
+            have h1 : 0 < mult sh d' := by rcases hcase with h | h <;> omega
             simp only [lookupK]
-            rw [isRepeatingP_spec _ (by omega) vals hrep _ hi hdiv]
+            rw [isRepeatingP_spec _ h1 vals hrep _ hi hdiv]
             cases c <;> cases d' <;> simp [repeatTests] at hmem <;>
               simp only [proj, mult, hsl, if_true] at *
             · -- gslices → tslices
@@ -2355,9 +2378,10 @@ theorem simplify_valid (null : α) (sh : Shp) (wf : WF sh) (hsl : sh.hasSlice = 
             obtain ⟨d', out'⟩ := pr
             simp [hrl] at h
             obtain ⟨rfl, rfl⟩ := h
-            obtain ⟨_, hbp, _, hlt, _, _, ho⟩ := repeatLoop_spec sh vals _ _ _ hrl
+            obtain ⟨_, hbp, hcase, _, _, ho⟩ := repeatLoop_spec sh vals _ _ _ hrl
             subst ho
-            exact ⟨hbase _ hbp, by rw [List.length_take]; exact Nat.min_eq_left (by omega)⟩
+            exact ⟨hbase _ hbp, by
+              rw [List.length_take]; exact Nat.min_eq_left (by rcases hcase with h | h <;> omega)⟩
 end simplify_valid
 
 /-! ### converses of the list tests (needed for minimality, C06) -/
@@ -2534,7 +2558,7 @@ theorem repeatLoop_prefix (sh : Shp) (vals : List α) (l : List Cls)
     unfold repeatLoop at h
     by_cases hb : basePresent sh x = true
     · simp only [hb, if_true] at h
-      cases hpc : pyIsRepeating vals (mult sh x) with
+      cases hpc : repeatHit vals (mult sh x) with
       | error e => simp [hpc] at h
       | ok b =>
         cases b with
@@ -2662,6 +2686,10 @@ theorem simplify_gslices_minimal (null : α) (sh : Shp) (wf : WF sh) (hsl : sh.h
     intro e p hm hp0 hg hmiss hb
     have hpc := hmiss hb
     rw [hm] at hpc
+    unfold repeatHit at hpc
+    by_cases hdeg : p = vals.length
+    · simp [hdeg] at hpc
+    simp only [hdeg, if_false] at hpc
     unfold pyIsRepeating at hpc
     by_cases hgd : p ≤ 1 ∨ p ≥ vals.length
     · simp [hgd] at hpc
